@@ -397,6 +397,12 @@ func c03Structural(w *run.Worker) {
 		maxSize = 4
 	}
 	for size := 1; size <= maxSize; size++ {
+		if size == 4 {
+			// the largest size over a reduced alphabet (6 simple statements, 12 for shapes), so that the tier completes
+			full := c03Enum()
+			e = &senum{simple: []nodeFn{full.simple[0], full.simple[1], full.simple[2], full.simple[4], full.simple[7], full.simple[8]}, loopOnly: full.loopOnly, conds: full.conds,
+				forInits: full.forInits, forConds: full.forConds, forSteps: full.forSteps[:3], forIns: full.forIns, maxDepth: 3, memoS: map[[3]int]*Fam{}, memoB: map[[3]int]*Fam{}}
+		}
 		// programs: x = 0 ; <one or two statements of this total size> ; p(x, y)
 		fam := e.blocks(size, false, 0)
 		if w.Shard == 0 {
@@ -452,7 +458,7 @@ func init() {
 		Level: "model_checking",
 		Rule: "(A) every ordered pair of 26 condition representatives (all truthiness classes; literals, variables, point keys, a tag, an absent name) in if/elif/else, and each as for-condition; " +
 			"(B) 17 iterables (lists, strings incl. multi-byte, 0/1/2-key maps, point values, non-iterables) x 4 loop-variable names (new, an outer variable, `_`, a point key) x 11 bodies (continue, break, nested loop, shadowing, mutation during iteration, body-locals read before assignment); " +
-			"(C) every program of total size <=3 (thorough <=4) statements, nesting <=3, over {probe(x,y), probe(pk,_), x=x+1, y=7, x+=10, pk=x, pk=nil, n0+=5 (a name that is only a point key), x=x/n0 (a run-time error while n0 is 0), break, continue} x if / if-else / if-elif-else x the 16 three-clause for shapes (init absent|y=0, condition absent|x<2, post absent|x=x+1|z=x|a post clause reading y) x 3 for-in forms, final probe of x, y, pk, z, n0; " +
+			"(C) every program of total size <=3 statements (thorough: also size 4 over 6 of the simple statements and 12 of the for shapes), nesting <=3, over {probe(x,y), probe(pk,_), x=x+1, y=7, x+=10, pk=x, pk=nil, n0+=5 (a name that is only a point key), x=x/n0 (a run-time error while n0 is 0), break, continue} x if / if-else / if-elif-else x the 16 three-clause for shapes (init absent|y=0, condition absent|x<2, post absent|x=x+1|z=x|a post clause reading y) x 3 for-in forms, final probe of x, y, pk, z, n0; " +
 			"ordered probe trace + final point compared with the reference interpreter; map iteration order is tried in both orders; after EVERY program a name-reading canary script (loaded once) runs with no load in between and must see only the point's keys and nil",
 		Assumptions: []string{"non-terminating programs are cut by a signal after 3000 polls (real) / 40000 steps (reference) and compared as trace prefixes"},
 		Run:            c03Run,
